@@ -302,6 +302,11 @@ def battery(lib):
         ("RSP.row", lambda A: sv.RandomizedSketchProjectPseudoinverse(block_size=2, max_iter=10).compute_row_variant(A), (Q_(A34),), True),
         ("CGNE.compute", lambda A: sv.CGNEQSolver(max_iter=10).compute(A), (Q_(A43),), False),
         ("create_test_matrix", lib.data_gen.create_test_matrix, (3, 2), True),
+        ("create_test_matrix_cond", lambda: lib.data_gen.create_test_matrix(4, 2, rank=2, cond_number=100.0), (), True),
+        ("create_sparse_quat_matrix", lambda: sparse_parts(lib.data_gen.create_sparse_quat_matrix(5, 4, density=0.5)), (), True),
+        ("sparse_scalar_mul", lambda S: sparse_parts(2.5 * S), (to_sparse(lib, A43),), False),
+        ("sparse_conj_T", lambda S: sparse_parts(S.conjugate().transpose()), (to_sparse(lib, A43),), False),
+        ("DeepLinear_random_init", lambda X: sv.DeepLinearNewtonSchulz(max_iter=1, random_init=True).compute(X, [3, 3, 4]), (Q_(A43),), True),
         ("generate_random_unitary_matrix", lib.data_gen.generate_random_unitary_matrix, (3,), True),
     ]
     return B
@@ -321,6 +326,10 @@ def alt_data(name, X):
     Y = X * 1.5
     Y.flat[0] = Y.flat[0] + 0.25
     return Y
+
+
+def sparse_parts(S):
+    return tuple(c.toarray() for c in (S.real, S.i, S.j, S.k))
 
 
 def arg_hash(a):
@@ -442,7 +451,7 @@ def run_case(case, seed):
                 fails.append(fail("repeat_call_differs", f"{name}: two identical calls (same global seed) returned different values", **tags))
             # aliased input: overwrite the first array argument IN PLACE with different in-domain data and call
             # again with the same object; the result must equal the result on a fresh copy of the new data
-            if isinstance(args[0], np.ndarray) and args[0].size and name not in ("real_contract",):
+            if args and isinstance(args[0], np.ndarray) and args[0].size and name not in ("real_contract",):
                 X = args[0]
                 orig = X.copy()
                 alt = alt_data(name, orig)
